@@ -19,4 +19,7 @@ pub assume_specification<T>[ core::mem::replace::<T> ](dest: &mut T, src: T) -> 
 // ---- TRUSTED: Result::unwrap_or (std: the Ok payload, else the given default)
 pub assume_specification<T: core::marker::Destruct, E: core::marker::Destruct>[ core::result::Result::<T, E>::unwrap_or ](r: core::result::Result<T, E>, d: T) -> (o: T)
     ensures o == (match r { Ok(v) => v, Err(_) => d });
+// ---- TRUSTED: i64::checked_neg (std: None exactly for i64::MIN)
+pub assume_specification[ i64::checked_neg ](x: i64) -> (r: Option<i64>)
+    ensures x == i64::MIN ==> r is None, x != i64::MIN ==> r == Some((-x) as i64);
 }
